@@ -84,7 +84,13 @@ Definition rect_shade_corners (dev az tilt : cs) (origin : vec3) (w h : Q) : lis
   let pt := fun (x y : Q) => vadd o (rotz g (mkV x (y * fst tilt) (y * snd tilt))) in
   [pt 0 0; pt w 0; pt w h; pt 0 h].
 
+(* a wall / roof given by its own polygon: X, Y, Z is the polygon's origin in space coordinates, AZIMUTH
+   (clockwise from the space's north) and TILT give its plane; the polygon is in that plane's frame *)
+Definition poly_wall_corners (dev : cs) (s : src_space) (az tilt : cs) (w : vec3) (poly : list (Q * Q)) : list vec3 :=
+  map (fun p => to_global dev s (vadd w (rotz (south_ccw az) (mkV (fst p) (snd p * fst tilt) (snd p * snd tilt))))) poly.
+
 Inductive c03case :=
+| PolyWall (dev : cs) (s : src_space) (az tilt : cs) (w : vec3) (poly : list (Q * Q)) (impl : list vec3)
 | RectShade (dev az tilt : cs) (origin : vec3) (w h : Q) (impl : list vec3)
 | EdgeWall (dev : cs) (s : src_space) (n : nat) (off : vec3) (impl : list vec3) (impl_normal : vec3)
 | Slab (dev : cs) (s : src_space) (z : Q) (off : vec3) (impl : list vec3)
@@ -110,6 +116,9 @@ Definition trig_ok (r : cs) : bool := qleb (unit_err r) (1 # 1000000).
 
 Definition agree_C03 (c : c03case) : N :=
   match c with
+  | PolyWall dev s az tilt w poly impl =>
+      if negb (trig_ok dev && trig_ok (ss_az s) && trig_ok az && trig_ok tilt) then 9
+      else if all_close cm (poly_wall_corners dev s az tilt w poly) impl then 0 else 11
   | RectShade dev az tilt origin w h impl =>
       if negb (trig_ok dev && trig_ok az && trig_ok tilt) then 9
       else if all_close cm (rect_shade_corners dev az tilt origin w h) impl then 0 else 10
